@@ -5,6 +5,7 @@
    Executable definitions only. *)
 From Coq Require Import List ZArith NArith String Ascii Bool.
 From Qryn Require Import model.ChLex model.SqlPieces model.TqSql.
+From Qryn Require model.Quote.   (* qualified: Quote.replace_all *)
 Import ListNotations.
 Open Scope string_scope.
 Open Scope list_scope.
@@ -73,3 +74,56 @@ with tq_psel (top : bool) (s : select) : rtext :=
   end.
 
 Definition tq_pieces (s : select) : rtext := tq_psel true s.
+
+(* ---------- replacing the content of every value of a TraceQL tree ---------- *)
+(* [tq_subst f e]: e with the content s of every StringVal node, of the regular expression of every matchRe and of the
+   attribute name of every sqlAttrValue replaced by f s (the three things StringVal.String prints).  With
+   f = "replace the harmless marker by the request string" this is the tree the planners build for the request string from
+   the tree they build for the marker (checked per case on the real trees by checks/c10.py run_tq_tree_tie). *)
+Fixpoint tq_subst (f : string -> string) (e : expr) {struct e} : expr :=
+  match e with
+  | Id s => Id s
+  | Raw s => Raw s
+  | NumLit s => NumLit s
+  | RawStr s => RawStr s
+  | StrV s => StrV (f s)
+  | IntV z => IntV z
+  | FloatV s => FloatV s
+  | LOp fn cl => LOp fn (map (tq_subst f) cl)
+  | InE l r => InE (tq_subst f l) (map (tq_subst f) r)
+  | WRef a => WRef a
+  | Col e a => Col (tq_subst f e) a
+  | Ord e d => Ord (tq_subst f e) d
+  | Fn g args => Fn g (map (tq_subst f) args)
+  | PFn g ps args => PFn g (map (tq_subst f) ps) (map (tq_subst f) args)
+  | Distinct e => Distinct (tq_subst f e)
+  | Bin op a b => Bin op (tq_subst f a) (tq_subst f b)
+  | EqBare a b => EqBare (tq_subst f a) (tq_subst f b)
+  | Tuple l => Tuple (map (tq_subst f) l)
+  | Lambda x b => Lambda x (tq_subst f b)
+  | BitSet terms => BitSet (map (tq_subst f) terms)
+  | BitSet8 terms => BitSet8 (map (tq_subst f) terms)
+  | BitAnd l r => BitAnd (tq_subst f l) (tq_subst f r)
+  | GroupBitOr e a => GroupBitOr (tq_subst f e) a
+  | MatchRe fl re => MatchRe (tq_subst f fl) (f re)
+  | AttrValue attr => AttrValue (f attr)
+  | Intersect l => Intersect (map (tq_subst_sel f) l)
+  | Union l => Union (map (tq_subst_sel f) l)
+  end
+with tq_subst_sel (f : string -> string) (s : select) {struct s} : select :=
+  match s with
+  | Sel withs distinct cols from joins pw wh hv gb ob lim =>
+    Sel (map (fun w => (fst w, tq_subst_sel f (snd w))) withs) distinct (map (tq_subst f) cols) (map_opt (tq_subst f) from)
+        (map (fun j => (fst (fst j), tq_subst f (snd (fst j)), map_opt (tq_subst f) (snd j))) joins)
+        (map_opt (tq_subst f) pw) (map_opt (tq_subst f) wh) (map_opt (tq_subst f) hv)
+        (map (tq_subst f) gb) (map (tq_subst f) ob) (map_opt (tq_subst f) lim)
+  end.
+
+(* what the per-case tie evaluates (extracted to OCaml): the segmented text of a real tree, the value-independent check,
+   the flattened text (compared with the SQL the real planner printed) and the renderer's own text *)
+Record tq_stmt := { tq_ok : bool; tq_flat : string; tq_render : string; tq_ps : rtext }.
+Definition tq_stmt_of (s : select) : tq_stmt :=
+  let p := tq_pieces s in {| tq_ok := pok QN p; tq_flat := flat p; tq_render := TqSql.render s; tq_ps := p |}.
+(* the tree for the request string is the tree for the marker with the marker replaced by the intended bytes in every value *)
+Definition tq_marker_subst (marker want : string) (base : select) : select :=
+  tq_subst_sel (Quote.replace_all marker want) base.
